@@ -309,6 +309,7 @@ def engine_check(ctx, P, sample_pred, seed_off):
         sh2, _ = snap_trace(ctx, "pods-4ord", "pods", 3, 3, 5, 40000, [inv_t], seed_off + 1)
         snap_trace(ctx, "pods-8to11", "pods-wide", 3, 4, 5, 30000, [inv_t], seed_off + 3)
         snap_trace(ctx, "pods-stale", "pods-stale", 2, 3, 5, 30000, [inv_t], seed_off + 4)
+        snap_trace(ctx, "pods-oddslots", "pods-oddslots", 2, 3, 5, 20000, [inv_t], seed_off + 5)
     else:
         ctx.design("MCSnapshot", mc_snapshot_cfg(2, 2, 3, False, [inv_d]), "pods-3ord-3ph")
         ctx.design("MCSnapshot", mc_snapshot_cfg(1, 2, 5, True, [inv_d]), "pods-2ord-5ph-del")
@@ -317,6 +318,7 @@ def engine_check(ctx, P, sample_pred, seed_off):
         sh3, _ = snap_trace(ctx, "pods-2ord-exh", "pods-del", 1, 2, 5, 0, [inv_t], seed_off + 2)
         snap_trace(ctx, "pods-8to11", "pods-wide", 3, 4, 5, 400000, [inv_t], seed_off + 3)
         snap_trace(ctx, "pods-stale", "pods-stale", 2, 3, 5, 400000, [inv_t], seed_off + 4)
+        snap_trace(ctx, "pods-oddslots", "pods-oddslots", 2, 3, 5, 300000, [inv_t], seed_off + 5)
         ctx.exhaustive = True
         ctx.extra["exhaustive_note"] = "domain pods-del(ord<=1) enumerated completely through the real controller; larger domains sampled"
     ctx.add_samples(sh, 2, sample_pred)
@@ -399,6 +401,7 @@ def check_C11(ctx):
     sh1, _ = snap_trace(ctx, "own-pods", "own-pods", 2, 2, 5, 30000 if q else 0, ["P_C11"], 20)
     sh2, _ = snap_trace(ctx, "own-revs", "own-revs", 2, 2, 5, 30000 if q else 0, ["P_C11"], 21)
     sh3, _ = snap_trace(ctx, "pods-del", "pods-del", 2, 3, 5, 40000 if q else 600000, ["P_C11"], 22)
+    snap_trace(ctx, "adopt", "adopt", 2, 2, 5, 0, ["P_C11"], 23)        # several orphans, deleting / paused, stale cache: enumerated completely
     if not q:
         ctx.exhaustive = True
     ctx.add_samples(sh1, 1, lambda r: r["sn"]["set"][11])
@@ -653,9 +656,13 @@ def check_C06(ctx):
 # the cluster engine: Cluster.tla (design), SimCluster (behaviours), harness sim, TraceCluster
 # =================================================================================
 
-def cluster_consts(maxord, maxrep, tmpls, edits, faults, fails, maxpos, mode, extra="", claims="{0}", queue=False):
-    return ("CONSTANTS MaxOrd = %d\n MaxRep = %d\n Tmpls = {%s}\n Policies = {\"OrderedReady\", \"Parallel\"}\n"
-            " Strats = {\"RollingUpdate\", \"OnDelete\"}\n Edits = %d\n Faults = %d\n Fails = %d\n MaxFaultPos = %d\n QueueDriven = %s\n ClaimCounts = %s\n InitMode = \"%s\"\n%s"
+def cluster_consts(maxord, maxrep, tmpls, edits, faults, fails, maxpos, mode, extra="", claims="{0}", queue=False, bare=False):
+    # bare: also sets of type RollingUpdate without the rollingUpdate block (not a defaulted spec).  Only for simulation:
+    # with a set cache that never catches up such a set re-creates a pod at the old revision again and again, so the
+    # exhaustive state space (which counts pod incarnations) is infinite although every fair behaviour converges.
+    strats = '{"RollingUpdate", "OnDelete", "RollingUpdateBare"}' if bare else '{"RollingUpdate", "OnDelete"}'
+    return (("CONSTANTS MaxOrd = %d\n MaxRep = %d\n Tmpls = {%s}\n Policies = {\"OrderedReady\", \"Parallel\"}\n"
+            " Strats = " + strats.replace("%", "%%") + "\n Edits = %d\n Faults = %d\n Fails = %d\n MaxFaultPos = %d\n QueueDriven = %s\n ClaimCounts = %s\n InitMode = \"%s\"\n%s")
             % (maxord, maxrep, ", ".join('"%s"' % t for t in tmpls), edits, faults, fails, maxpos, "TRUE" if queue else "FALSE", claims, mode, extra))
 
 
@@ -692,7 +699,7 @@ def cluster_check(ctx, beh_invs, rec_invs, invariants, properties, faults=0, fai
     # behaviours from the model (direction A)
     ntlc, nrand, depth = (int(120 * scale), int(120 * scale), 24) if q else (int(1500 * scale), int(3000 * scale), 30)
     wd = os.path.join(ctx.outdir, "simulate")
-    simconsts = cluster_consts(2, 3, ["t0", "t1", "t2"], 3, 2, 2, 5, "any", " Depth = %d\n" % depth, claims=scc, queue=queue) if mode == "any" else \
+    simconsts = cluster_consts(2, 3, ["t0", "t1", "t2"], 3, 2, 2, 5, "any", " Depth = %d\n" % depth, claims=scc, queue=queue, bare=True) if mode == "any" else \
         cluster_consts(2, 3, ["t0", "t1", "t2"], 0, 1, 1, 5, "migration", " Depth = %d\n" % depth)
     simcfg = simconsts + \
         "INIT SimInit\nNEXT SimNext\nINVARIANT Emit\nINVARIANT StatusTruth\nINVARIANT QuietPods\nCHECK_DEADLOCK FALSE\n"
@@ -720,7 +727,8 @@ def cluster_check(ctx, beh_invs, rec_invs, invariants, properties, faults=0, fai
     if queue:
         tcfg = tcfg.replace("QueueDriven = FALSE", "QueueDriven = TRUE")
     ctx.trace("TraceCluster", tcfg, shards, "behaviours", set(beh_invs), conf_inv="B_Conf",
-              replay=lambda rec: {"kind": "beh", "id": rec.get("id"), "queue": queue, "acts": [s["act"] for s in rec["steps"]]}, heap="4g")
+              replay=lambda rec: {"kind": "beh", "id": rec.get("id"), "queue": queue, "slow": bool(rec.get("slowTail")),
+                                  "acts": [s["act"] for s in rec["steps"]]}, heap="4g")
     # every reconcile of every behaviour, judged like the single reconciles of the snapshot engine
     recs = sorted(glob.glob(os.path.join(d, "recs-*.ndjson")))
     recs = [x for x in recs if os.path.getsize(x) > 0]
@@ -738,7 +746,8 @@ def replay_beh(prop, inv, rp, wd):
     bf = os.path.join(wd, "beh.ndjson")
     with open(bf, "w") as f:
         f.write(json.dumps({"acts": rp["acts"]}) + "\n")
-    vlib.run_harness(["sim", "--in", bf, "--random", "0", "--workers", "1", "--out", os.path.join(wd, "rec")] + (["--queue"] if rp.get("queue") else []))
+    vlib.run_harness(["sim", "--in", bf, "--random", "0", "--workers", "1", "--out", os.path.join(wd, "rec"),
+                      "--tail", "slow" if rp.get("slow") else "fast"] + (["--queue"] if rp.get("queue") else []))
     sh = os.path.join(wd, "rec", "shard-00.ndjson")
     c = Ctx.__new__(Ctx)
     tcfg = open(os.path.join(vlib.SPEC, "Trace_Cluster.cfg")).read() + "INVARIANT %s\n" % inv
